@@ -28,7 +28,7 @@ ASSUMPTIONS = [
     "fitted third-party estimator objects held by surrogate samplers are excluded from the canonical state",
     "Python scalars compare with == (True == 1, 3 == 3.0); list vs tuple is not a difference",
 ]
-REQUIRED_COUNTERS = {"restores_compared": 60, "tuple_roundtrips_json": 40, "tuple_roundtrips_sqlite": 40, "prepopulated_folder": 15,
+REQUIRED_COUNTERS = {"relative_folder_cases": 10, "restores_compared": 60, "tuple_roundtrips_json": 40, "tuple_roundtrips_sqlite": 40, "prepopulated_folder": 15,
                      "no_batch_yet": 3, "after_set_samplers": 3, "convergence_stop": 3, "rl_scheduler": 3}
 SHARDS = {"quick": 16, "thorough": 16}
 SHARD_WATCHDOG = {"quick": 1500, "thorough": 10800}
@@ -88,8 +88,16 @@ def run_cal(desc, ctx, out):
     heavy = i % 5 == 0
     cfg = CG.gen_config(rng, kinds=None if heavy else G.CHEAP + ["CORS"], scheduler="rl" if rl else None, n_samplers=int(rng.integers(1, 5)), max_bs=3)
     folder = ctx.scratch() / "ck"
+    relative = i % 3 == 1
+    if relative:
+        # the folder is named the way the documentation does (relative, not canonical); the case runs with the scratch dir as cwd
+        import os
+
+        os.chdir(folder.parent)
+        folder = type(folder)("ck")
+        c["relative_folder_cases"] = c.get("relative_folder_cases", 0) + 1
     model = CG.model_for(cfg)
-    wit = {"config": cfg, "ops": []}
+    wit = {"config": cfg, "ops": [], "folder_given_as": "relative path" if relative else "absolute path"}
     pre = str(rng.choice(["empty", "empty", "other_more", "other_fewer", "other_shape", "other_same", "same_config_other_model", "same_config_other_model"]))
     if pre == "same_config_other_model":
         # an earlier, shorter attempt with the same configuration and seed whose model behaved differently in part of the space:
@@ -331,6 +339,12 @@ def run_tuple(desc, ctx, out):
 
 
 def run_case(desc, ctx):
+    import os
+
     out = {"violations": [], "counters": {}, "evals": 0, "nontrivial": []}
-    {"cal": run_cal, "tuple": run_tuple, "conv": run_conv}[desc["kind"]](desc, ctx, out)
+    cwd = os.getcwd()
+    try:
+        {"cal": run_cal, "tuple": run_tuple, "conv": run_conv}[desc["kind"]](desc, ctx, out)
+    finally:
+        os.chdir(cwd)
     return out
